@@ -34,11 +34,12 @@ static void run_case(vr::Runner &R, const Cfg &cfg, const vg::EdgeList &el, cons
         try { ret = vv::run_exact<W>(var, b, cycles); }
         catch (std::exception &e) { exc = std::string("exception: ") + e.what(); }
         catch (...) { exc = "unknown exception"; }
-        R.crumb_done();
         R.count(C_EVAL);
         auto cs = [&]() { return vg::case_string(el, w, std::string("variant=") + vv::variant_name(var) + ";wtype=" + (cfg.w_int ? "int" : "double")); };
-        if (!exc.empty()) { R.violation({vv::variant_name(var), "exception", cs(), exc}); continue; }
+        if (!exc.empty()) { R.crumb_done(); R.violation({vv::variant_name(var), "exception", cs(), exc}); continue; }
+        // still inside the case: validating (and, in sanitizer builds, dereferencing) what the library handed back belongs to it
         auto chk = vb::check_cycle_set<W>(b, w, cycles, dim);
+        R.crumb_done();
         if (verbose) printf("variant=%s returned=%s emitted_total=%s weights=%s count=%zu\n", vv::variant_name(var),
                 vg::fmt_w((double) ret).c_str(), vg::fmt_w(chk.total).c_str(), vb::vec_str(chk.weights).c_str(), chk.masks.size());
         if (!chk.ok && cfg.do_c01) R.violation({vv::variant_name(var), chk.cls, cs(), chk.msg});
